@@ -78,6 +78,26 @@ end DocState
 
 def isNotationLine (t : String) : Bool := (matchNotation t).isSome
 
+/-- the doc comments of two methods are different AST nodes and different comment groups (a fact of
+`go/ast`: every interface method is its own `Field`); evaluated by the driver on every input -/
+def apartCheck (s : DocState) (c1 c2 : List Nat) : Bool :=
+  match s.docOn c1 with
+  | none => true
+  | some (n1, g1) =>
+    c2.all (fun enc => enc / 8 != n1) &&
+    (match s.docOn c2 with
+     | none => true
+     | some (_, g2) => g2 != g1)
+
+/-- all pairs of distinct methods of the file's interfaces are apart -/
+def FileFacts.methodsApart (f : FileFacts) : Bool :=
+  let s : DocState := { groups := f.groups, docOf := f.docOf }
+  let ms := (f.scope.filter (fun o => o.isInterface && o.inSetupFile)).flatMap (·.methods)
+  let rec go : List MethodDecl → Bool
+    | [] => true
+    | m :: rest => rest.all (fun m' => apartCheck s m.docChain m'.docChain && apartCheck s m'.docChain m.docChain) && go rest
+  go ms
+
 /-- `intfEntry` -/
 structure IntfEntry where
   obj : ScopeObj
